@@ -78,6 +78,22 @@ fn check(s: &Sharing, case: &mut Case) -> Result<(), Fail> {
         let ow = reparse(&v[k.min(v.len())..], "c03:compressed-unparseable@origin", "compressed output written at a non-zero stream offset")?;
         ensure!(ow == ou, "c03:compressed-mismatch@origin", "compressed output written at stream offset {} parses differently from the plain output: {}", k, diff(&ou, &ow));
     }
+    // the writer-based entry point on a buffer that is being reused: rewound to 0 (or to a small offset) while it
+    // still holds an earlier, longer message
+    if s.filler_at % 4 == 3 && u.len() < 8192 {
+        case.class("reused-buffer");
+        let k = if s.filler_at % 8 == 3 { 0 } else { 2 + (s.filler_at as usize % 9) };
+        let stale = k + u.len() + 1 + (s.filler_at as usize % 300);
+        let mut cur = std::io::Cursor::new((0..stale).map(|j| 0x30u8 ^ (j as u8)).collect::<Vec<u8>>());
+        cur.set_position(k as u64);
+        lib("write_compressed_to", || pk.write_compressed_to(&mut cur))?.map_err(|e| Fail::new("c03:compressed-failed", format!("write_compressed_to into a reused buffer at offset {}: {:?}", k, e)))?;
+        let v = cur.into_inner();
+        // the message occupies as many octets as the vector-returning entry point produced (that the two agree
+        // octet for octet is C04's statement; here only what the octets mean is compared)
+        ensure!(v.len() >= k + c.len(), "c03:compressed-unparseable@reused", "the reused buffer holds {} octets, the message alone has {}", v.len(), c.len());
+        let ow = reparse(&v[k..k + c.len()], "c03:compressed-unparseable@reused", "compressed output written into a reused buffer")?;
+        ensure!(ow == ou, "c03:compressed-mismatch@reused", "compressed output written into a reused buffer (offset {}, {} stale octets) parses differently from the plain output: {}", k, stale, diff(&ou, &ow));
+    }
     // and on a writer that accepts only a few bytes per call (any std::io::Write may do that)
     if s.filler_at % 4 == 2 && u.len() < 8192 {
         case.class("short-write-writer");
@@ -98,7 +114,7 @@ fn strategy(t: Tier) -> BoxedStrategy<Sharing> {
 pub fn def() -> CheckDef {
     CheckDef {
         id: "C03",
-        rule: "proptest: packets as in C02 whose owner, question and RDATA names come from suffix trees over a tiny label pool (constant sharing; pairs differing only in a leading or trailing label), with filler records that move later names just below / at / above offset 16383 and up to 65535 bytes; oracle observe(parse(compressed)) == observe(parse(plain)) and len(compressed) <= len(plain), claimed for packets whose plain form round-trips to the model (otherwise the defect is C02's and no claim is made here); a quarter of the cases also write the compressed form at a non-zero stream offset, another quarter through a writer accepting 1..3 bytes per call. Non-trivial = the compressed output is strictly shorter (at least one pointer emitted); classes report messages over 16 KiB and names first written above 16383 that repeat",
+        rule: "proptest: packets as in C02 whose owner, question and RDATA names come from suffix trees over a tiny label pool (constant sharing; pairs differing only in a leading or trailing label), with filler records that move later names just below / at / above offset 16383 and up to 65535 bytes; oracle observe(parse(compressed)) == observe(parse(plain)) and len(compressed) <= len(plain), claimed for packets whose plain form round-trips to the model (otherwise the defect is C02's and no claim is made here); a quarter of the cases also write the compressed form at a non-zero stream offset, a quarter into a reused buffer that still holds a longer stale message (rewound to 0 or to a small offset), another quarter through a writer accepting 1..3 bytes per call. Non-trivial = the compressed output is strictly shorter (at least one pointer emitted); classes report messages over 16 KiB and names first written above 16383 that repeat",
         assumptions: vec!["same exclusions as C02"],
         sections: vec![Box::new(PropSection { name: "transparent", rule: "compressed == plain == model", strategy, cases: (200_000, 1_500_000), check })],
     }
